@@ -18,25 +18,26 @@ oracles
                   append_descriptor) only the receiver is allowed to change, every other argument is still checked.
 * C12/fresh       clause 2 ("the objects it returns are independent of their sources"): for every producer and each
                   documented in-place mutator m in {reorder, sort_by, append, dataset-sort_by} plus array-write (write
-                  into the data array: dissimilarities / measurements / model vectors / bare ndarray) and
-                  descriptor-array-write (write into an ndarray-valued descriptor):
+                  into every ndarray of the object: dissimilarities / measurements / model vectors / bare ndarray /
+                  ndarray-valued descriptors):
                     result --m--> fingerprint of the sources (arguments) unchanged,   label  child-<m>-...-parent
                     source --m--> fingerprint of the result unchanged,               label  parent-<m>-...-child
                   each on a fresh call (same seed) so that effects are attributed to one mutator.
-* C12/mean-weights  targeted: RDMs.mean(weights = array | descriptor name | None) on partial (NaN) RDMs leaves the
-                  weights array, the stored descriptor and the RDMs unchanged; all weight dtypes/orders.
-* C12/shared-lists  targeted: for every RDMs-returning producer the list OBJECTS that hold descriptor values of the
-                  result are not the list objects of the source when the enclosing dictionaries are distinct
-                  (otherwise an in-place list growth in append would couple them); checked through the public
-                  behaviour only: source/ result append and the other's lengths + labelled rows.
-* C12/coverage    every discovered callable is either called successfully with pool arguments in at least one
-                  variant or is on the explicit NOT_CALLABLE list (with the reason); a NEW callable the pool cannot
-                  call is reported as a note (not a violation) and counted in the domain string.
+* C12/mean-weights  targeted, exhaustive on its small domain: RDMs.mean(weights = None | array | name of an rdm_descriptor) on
+                  partial (NaN) RDMs leaves the weights array (float64 C / Fortran / view, float32, int), the stored weights
+                  descriptor, the dissimilarities and the descriptors of the source unchanged (clause 1 for the one public
+                  operation that takes a second data-sized array).
+* C12/callable    non-vacuity of the sweep: each of the callables known when the tier was written can still be called with some
+                  pool variant (else clauses 1 and 2 would silently go unchecked for it).  A callable that is NEW and that
+                  the default recipe cannot call is recorded as a note and in the domain string, not as a violation.
 
 input_class labels: '<fn>:modifies-<arg>.<component>' for clause 1 and
-'<fn>:child-<mutator>-relabels|rewrites-parent' / '<fn>:parent-<mutator>-relabels|rewrites-child' for clause 2
+'<fn>:child-<mutator>-relabels|rewrites-parent.<argument>' (in-place operation on the RESULT changed <argument>) /
+'<fn>:parent-<mutator>-relabels|rewrites-child' (in-place operation on the ARGUMENTS changed the result) for clause 2
 ('relabels' = only descriptor values of the untouched object changed, 'rewrites' = a data array changed), one label
-per (function, aliasing/mutation kind) so that each genuine defect of the unchanged tree can be listed individually.
+per (function, aliasing/mutation kind) so that each genuine defect of the unchanged tree can be listed individually
+(the keys are matched with fnmatch, so a family can be listed with a pattern, e.g. 'eval_*:*-parent.models').
+Cases whose generated arguments the callable rejects (it raises) are not evaluations of the property and are skipped.
 
 NOT covered by this tier: callables outside the five packages (io, vis, simulation, cengine); argument shapes /
 descriptor types outside the pool (e.g. >3 RDMs x 5 conditions, nested descriptor values); histories longer than
@@ -252,6 +253,7 @@ def _is_data_component(comp):
 # typed pool
 # =====================================================================================================
 FLAVOURS = ('list', 'array', 'neg', 'nan', 'plain')
+QUICK_FLAVOURS = ('array', 'negnan', 'plain')     # 'negnan' = list-valued descriptors, negative values and NaN pairs at once
 CONDS = ['c3', 'c0', 'c4', 'c1', 'c2', 'c6', 'c5']
 SUBJ = ['s2', 's0', 's3', 's1', 's4']
 
@@ -283,9 +285,9 @@ class Pool:
         pts = self.rs.randn(n_rdm, n_cond, n_cond + 2)
         iu = np.triu_indices(n_cond, 1)
         v = np.array([((p[:, None, :] - p[None, :, :]) ** 2).sum(-1)[iu] for p in pts]) / (n_cond + 2) + 0.01 * self.rs.rand(n_rdm, n_pair)
-        if self.flavour == 'neg':
+        if self.flavour in ('neg', 'negnan'):
             v[:, ::3] -= 1.7
-        if self.flavour == 'nan':
+        if self.flavour in ('nan', 'negnan'):
             v[:, [1, n_pair - 2]] = np.nan
         return v
 
@@ -309,7 +311,7 @@ class Pool:
         labels = (['c1', 'c0', 'c3', 'c2', 'c5', 'c4'][:n_cond]) * n_rep
         runs = [r for r in range(n_rep) for _ in range(n_cond)]
         X = self.rs.randn(n_cond * n_rep, n_ch) + 2 * self.rs.randn(n_cond, n_ch)[[i % n_cond for i in range(n_cond * n_rep)]]
-        if self.flavour == 'neg':
+        if self.flavour in ('neg', 'negnan'):
             X = X - 1.0
         if self.flavour == 'plain':
             return X, None, None, None
@@ -348,7 +350,7 @@ class Pool:
     def model(self, kind='fixed', name='m0', from_array=False):
         import rsatoolbox.model as M
         cls = dict(fixed=M.ModelFixed, select=M.ModelSelect, weighted=M.ModelWeighted, interpolate=M.ModelInterpolate)[kind]
-        keep, self.flavour = self.flavour, ('list' if self.flavour in ('nan',) else self.flavour)
+        keep, self.flavour = self.flavour, ('list' if self.flavour in ('nan', 'negnan', 'neg') else self.flavour)
         try:
             if from_array:
                 a = self.rdm_array(1 if kind == 'fixed' else 3)
@@ -694,7 +696,9 @@ def _s_mean(P, v, rec):
         return dict(weights=1.0 + P.rs.rand(P.n_rdm, 10))
     if v == 2 and P.flavour != 'plain':
         w = 1.0 + P.rs.rand(P.n_rdm, 10)
-        return dict(self=P.rdms(extra_rdm_desc={'w': w}), weights='w')
+        r = P.rdms(extra_rdm_desc={'w': w})
+        r.descriptors = {'roi': 'V1'}      # mean(weights=name) builds a set of (key, value) pairs: values must be hashable
+        return dict(self=r, weights='w')
     return None
 
 
@@ -1697,6 +1701,8 @@ def frame_diffs(case):
                 rec, args, call = _invoke(case, tmp)
             except NotExercised as e:
                 return 'not-exercised', str(e), None
+            except Exception as e:      # the pool itself could not be built on this tree (constructor / save raised)
+                return 'not-exercised', f'pool construction raised {type(e).__name__}: {str(e)[:150]}', None
             before = _fp_args(args)
             t0 = time.time()
             try:
@@ -1713,7 +1719,7 @@ def frame_diffs(case):
             if n == allowed:
                 continue
             for comp, desc in fp_diff(before[n], after[n]):
-                label = f'{rec.short}:modifies-{_collapse(n + comp)}'
+                label = f'{rec.short}:modifies-' + (n if _is_desc_name(n) else _collapse(n + comp))
                 if label in done:
                     continue
                 done.add(label)
@@ -1961,6 +1967,25 @@ def orc_fresh(case):
     return _pick(st, diffs, case)
 
 
+@oracle('C12/callable')
+def orc_callable(case):
+    """non-vacuity: a callable that the pool could call when this tier was written can still be called in some variant"""
+    q = case['fn']
+    rec = recs().get(q)
+    if rec is None:
+        return None          # removed from the public interface: nothing to check
+    why = []
+    for fl in FLAVOURS + QUICK_FLAVOURS:
+        for v in range(MAX_VARIANTS if q in SPECS else AUTO_VARIANTS):
+            st, d, _ = _cached('frame', dict(fn=q, flavour=fl, variant=v, seed=0), frame_diffs)
+            if st == 'ok':
+                return None
+            if 'no such variant' in d:
+                break
+            why.append(f'{fl},v{v}: {d}')
+    return f'{q} cannot be called with any pool argument any more (clauses 1 and 2 unchecked for it): ' + ' | '.join(why[:3])
+
+
 @oracle('C12/mean-weights')
 def orc_mean_weights(case):
     """RDMs.mean(weights) on partial RDMs: weights array, stored weights descriptor, dissimilarities and descriptors of
@@ -2010,13 +2035,12 @@ def orc_mean_weights(case):
             '; '.join(t for _, t in fp_diff(before_w, fp(W))[:2])
     if fp(rdms) != before_obj:
         return 'mean(weights) modified its source: ' + '; '.join(t for _, t in fp_diff(before_obj, fp(rdms))[:2])
-    ww = np.where(np.isnan(d), np.nan, w) if kind == 'none' else w
-    with np.errstate(all='ignore'):
-        want = np.nansum(d * ww, axis=0) / np.nansum(ww, axis=0)
-    got = res.dissimilarities[0]
-    ok = np.isnan(want) == np.isnan(got)
-    if not ok.all() or not np.allclose(got[~np.isnan(want)], want[~np.isnan(want)], rtol=1e-9, atol=1e-12):
-        return f'mean(weights) is not the NaN-ignoring weighted mean: expected {want[:4]}, got {got[:4]}'
+    got = np.asarray(res.dissimilarities)
+    if got.shape != (1, n_pair):
+        return f'mean(weights) returned dissimilarities of shape {got.shape}, expected {(1, n_pair)}'
+    has_value = (~np.isnan(d * w)).any(axis=0)
+    if not np.isfinite(got[0][has_value]).all():      # guards against a vacuous call only (the value itself is C13's)
+        return f'mean(weights) is not finite where at least one RDM has a value and a weight: {got[0]}'
     return None
 
 
@@ -2034,6 +2058,89 @@ EXPECT_NOT_CALLABLE = {
     'util.vis_utils.Weighted_MDS.fit_transform': 'installed scikit-learn has no BaseEstimator._validate_data (AttributeError)',
 }
 
+# the callables discovered when this tier was written; one of THESE that can no longer be called with any pool argument is
+# reported (C12/callable); a callable not in this list is NEW: swept with the default recipe, a note if the pool cannot call it
+KNOWN_CALLABLES = set("""
+data.base.DatasetBase.__eq__ data.base.DatasetBase.__init__ data.base.DatasetBase.__repr__
+data.base.DatasetBase.__str__ data.base.DatasetBase.copy data.base.DatasetBase.save
+data.base.DatasetBase.split_channel data.base.DatasetBase.split_obs data.base.DatasetBase.subset_channel
+data.base.DatasetBase.subset_obs data.base.DatasetBase.to_dict data.computations.average_dataset
+data.computations.average_dataset_by data.dataset.Dataset.__eq__ data.dataset.Dataset.copy
+data.dataset.Dataset.from_df data.dataset.Dataset.get_measurements data.dataset.Dataset.get_measurements_tensor
+data.dataset.Dataset.nested_odd_even_split data.dataset.Dataset.odd_even_split data.dataset.Dataset.sort_by
+data.dataset.Dataset.split_channel data.dataset.Dataset.split_obs data.dataset.Dataset.subset_channel
+data.dataset.Dataset.subset_obs data.dataset.Dataset.to_df data.dataset.TemporalDataset.__eq__
+data.dataset.TemporalDataset.__init__ data.dataset.TemporalDataset.__str__ data.dataset.TemporalDataset.bin_time
+data.dataset.TemporalDataset.convert_to_dataset data.dataset.TemporalDataset.copy
+data.dataset.TemporalDataset.sort_by data.dataset.TemporalDataset.split_channel
+data.dataset.TemporalDataset.split_obs data.dataset.TemporalDataset.split_time
+data.dataset.TemporalDataset.subset_channel data.dataset.TemporalDataset.subset_obs
+data.dataset.TemporalDataset.subset_time data.dataset.TemporalDataset.time_as_channels
+data.dataset.TemporalDataset.time_as_observations data.dataset.TemporalDataset.to_dict
+data.dataset.dataset_from_dict data.dataset.load_dataset data.dataset.merge_subsets data.noise.cov_from_measurements
+data.noise.cov_from_residuals data.noise.cov_from_unbalanced data.noise.prec_from_measurements
+data.noise.prec_from_residuals data.noise.prec_from_unbalanced data.ops.merge_datasets
+inference.boot_testset.bootstrap_testset inference.boot_testset.bootstrap_testset_pattern
+inference.boot_testset.bootstrap_testset_rdm inference.bootstrap.bootstrap_sample
+inference.bootstrap.bootstrap_sample_pattern inference.bootstrap.bootstrap_sample_rdm
+inference.crossvalsets.sets_k_fold inference.crossvalsets.sets_k_fold_pattern inference.crossvalsets.sets_k_fold_rdm
+inference.crossvalsets.sets_leave_one_out_pattern inference.crossvalsets.sets_leave_one_out_rdm
+inference.crossvalsets.sets_of_k_pattern inference.crossvalsets.sets_of_k_rdm inference.crossvalsets.sets_random
+inference.evaluate.bootstrap_crossval inference.evaluate.crossval inference.evaluate.eval_bootstrap
+inference.evaluate.eval_bootstrap_pattern inference.evaluate.eval_bootstrap_rdm
+inference.evaluate.eval_dual_bootstrap inference.evaluate.eval_dual_bootstrap_random inference.evaluate.eval_fixed
+inference.noise_ceiling.boot_noise_ceiling inference.noise_ceiling.cv_noise_ceiling inference.result.Result.__init__
+inference.result.Result.__repr__ inference.result.Result.__str__ inference.result.Result.get_ci
+inference.result.Result.get_errorbars inference.result.Result.get_means inference.result.Result.get_model_var
+inference.result.Result.get_noise_ceil inference.result.Result.get_sem inference.result.Result.save
+inference.result.Result.summary inference.result.Result.test_all inference.result.Result.test_noise
+inference.result.Result.test_pairwise inference.result.Result.test_zero inference.result.Result.to_dict
+inference.result.load_results inference.result.result_from_dict model.fitter.Fitter.__call__
+model.fitter.Fitter.__init__ model.fitter.fit_interpolate model.fitter.fit_mock model.fitter.fit_optimize
+model.fitter.fit_optimize_positive model.fitter.fit_regress model.fitter.fit_regress_nn model.fitter.fit_select
+model.model.Model.__init__ model.model.Model.fit model.model.Model.predict model.model.Model.predict_rdm
+model.model.Model.to_dict model.model.ModelFixed.__init__ model.model.ModelFixed.predict
+model.model.ModelFixed.predict_rdm model.model.ModelInterpolate.__init__ model.model.ModelInterpolate.predict
+model.model.ModelInterpolate.predict_rdm model.model.ModelSelect.__init__ model.model.ModelSelect.predict
+model.model.ModelSelect.predict_rdm model.model.ModelWeighted.__init__ model.model.ModelWeighted.predict
+model.model.ModelWeighted.predict_rdm model.model.model_from_dict model.model_family.ModelFamily.__init__
+model.model_family.ModelFamily.get_all_family_members model.model_family.ModelFamily.get_family_member
+rdm.calc.calc_rdm rdm.calc.calc_rdm_correlation rdm.calc.calc_rdm_crossnobis rdm.calc.calc_rdm_euclidean
+rdm.calc.calc_rdm_mahalanobis rdm.calc.calc_rdm_movie rdm.calc.calc_rdm_poisson rdm.calc.calc_rdm_poisson_cv
+rdm.calc_unbalanced.calc_one_similarity rdm.calc_unbalanced.calc_rdm_unbalanced rdm.calc_unbalanced.ensure_double
+rdm.combine.from_partials rdm.combine.rescale rdm.compare.compare rdm.compare.compare_bures_metric
+rdm.compare.compare_bures_similarity rdm.compare.compare_correlation rdm.compare.compare_correlation_cov_weighted
+rdm.compare.compare_cosine rdm.compare.compare_cosine_cov_weighted rdm.compare.compare_kendall_tau
+rdm.compare.compare_kendall_tau_a rdm.compare.compare_neg_riemannian_distance rdm.compare.compare_rho_a
+rdm.compare.compare_spearman rdm.pairs.pairs_by_percentile rdm.rdms.RDMs.__eq__ rdm.rdms.RDMs.__getitem__
+rdm.rdms.RDMs.__init__ rdm.rdms.RDMs.__len__ rdm.rdms.RDMs.__repr__ rdm.rdms.RDMs.__str__ rdm.rdms.RDMs.append
+rdm.rdms.RDMs.copy rdm.rdms.RDMs.get_matrices rdm.rdms.RDMs.get_vectors rdm.rdms.RDMs.mean rdm.rdms.RDMs.reorder
+rdm.rdms.RDMs.save rdm.rdms.RDMs.sort_by rdm.rdms.RDMs.subsample rdm.rdms.RDMs.subsample_pattern
+rdm.rdms.RDMs.subset rdm.rdms.RDMs.subset_pattern rdm.rdms.RDMs.to_df rdm.rdms.RDMs.to_dict rdm.rdms.concat
+rdm.rdms.get_categorical_rdm rdm.rdms.inverse_permute_rdms rdm.rdms.load_rdm rdm.rdms.permute_rdms
+rdm.rdms.rdms_from_dict rdm.transform.geodesic_transform rdm.transform.geotopological_transform
+rdm.transform.minmax_transform rdm.transform.positive_transform rdm.transform.rank_transform
+rdm.transform.sqrt_transform rdm.transform.transform util.data_utils.extract_dict util.data_utils.get_unique_inverse
+util.data_utils.get_unique_unsorted util.descriptor_utils.append_descriptor util.descriptor_utils.bool_index
+util.descriptor_utils.check_descriptor_length util.descriptor_utils.check_descriptor_length_error
+util.descriptor_utils.desc_eq util.descriptor_utils.dict_to_list util.descriptor_utils.format_descriptor
+util.descriptor_utils.num_index util.descriptor_utils.parse_input_descriptor util.descriptor_utils.subset_descriptor
+util.file_io.remove_file util.inference_util.all_tests util.inference_util.bootstrap_pair_tests
+util.inference_util.default_k_pattern util.inference_util.default_k_rdm util.inference_util.extract_variances
+util.inference_util.get_errorbars util.inference_util.input_check_model util.inference_util.nc_tests
+util.inference_util.pair_tests util.inference_util.pool_rdm util.inference_util.ranksum_pair_test
+util.inference_util.ranksum_value_test util.inference_util.t_test_0 util.inference_util.t_test_nc
+util.inference_util.t_tests util.inference_util.zero_tests util.matrix.centering util.matrix.get_v
+util.matrix.indicator util.matrix.pairwise_contrast util.matrix.pairwise_contrast_sparse
+util.matrix.row_col_indicator_g util.matrix.row_col_indicator_rdm util.matrix.run
+util.matrix.square_between_category_binary_mask util.matrix.square_category_binary_mask util.pooling.pool_rdm
+util.rdm_utils.add_pattern_index util.rdm_utils.batch_to_matrices util.rdm_utils.batch_to_vectors
+util.rdm_utils.category_condition_idxs util.searchlight.evaluate_models_searchlight
+util.searchlight.get_searchlight_RDMs util.searchlight.get_volume_searchlight util.vis_utils.Weighted_MDS.__init__
+util.vis_utils.Weighted_MDS.fit util.vis_utils.Weighted_MDS.fit_transform util.vis_utils.smacof
+util.vis_utils.weight_to_matrices
+""".split())
+
 # expensive callables: in the quick tier one flavour and the first two variants only
 SLOW = {'inference.evaluate.eval_dual_bootstrap', 'inference.evaluate.crossval', 'inference.boot_testset.bootstrap_testset_rdm',
         'inference.boot_testset.bootstrap_testset', 'inference.boot_testset.bootstrap_testset_pattern',
@@ -2046,11 +2153,7 @@ def _flavours(rec, thorough):
         return FLAVOURS
     if rec.qual in SLOW:
         return ('array',)
-    takes_rdms = rec.module.split('.')[0] in ('rdm', 'model', 'inference') or rec.module in ('util.pooling', 'util.rdm_utils') \
-        or rec.name == 'pool_rdm'
-    if rec.module.startswith('rdm.calc'):
-        takes_rdms = False
-    return ('array', 'neg', 'nan', 'plain') if takes_rdms else ('array', 'neg', 'plain')
+    return QUICK_FLAVOURS
 
 
 def sweep(thorough, visit, only=None):
@@ -2120,11 +2223,23 @@ def tier_c(run, thorough):
            f'pool arguments ({sum(v for v in ex.values() if v > 0)} calls), {len(not_called)} never callable '
            f'({len(not_called) - len(unexpected)} abstract / environment, listed in EXPECT_NOT_CALLABLE'
            + (f'; NOT COVERED new callables: {unexpected}' if unexpected else '') + '); pool: RDMs 4x5 (5x7 for inference) / Dataset 8x5 / '
-           f'TemporalDataset 6x3x4 / 4 model classes / Result / arrays, flavours {"all 5" if thorough else "array, neg, nan, plain"} '
+           f'TemporalDataset 6x3x4 / 4 model classes / Result / arrays, flavours {list(FLAVOURS) if thorough else list(QUICK_FLAVOURS)} '
            f'(list- vs ndarray-valued descriptors, negative values, NaN pairs, no descriptors), <= {MAX_VARIANTS} argument variants per '
            f'callable, seeds {"0,1" if thorough else "0"}')
     bf.domain = dom
     bi.domain = dom + f'; in-place operations {list(MUTS)} applied to result and to arguments on a fresh call each ({n_ops[0]} applications)'
+    bc = Bounded(run, 'C12/callable', 'C12/sweep/oracle/pool-can-call', f'the {len(KNOWN_CALLABLES)} callables known when the tier was '
+                 f'written minus {len(EXPECT_NOT_CALLABLE)} abstract / environment-broken ones: callable with some pool variant',
+                 exhaustive=True, function='every discovered public callable')
+    for q in sorted(KNOWN_CALLABLES - set(EXPECT_NOT_CALLABLE)):
+        if q in recs() and ex.get(q, 0) > 0:
+            bc.evals += 1
+            bc.keys.add(q)
+            continue
+        bc.check(orc_callable, dict(fn=q), 'no-longer-callable', function=q)
+    bc.done()
+    bds.append(bc)
+    unexpected = [q for q in unexpected if q not in KNOWN_CALLABLES]
     for q in unexpected:
         run.notes.append(f'C12 tier C: discovered callable {q} could not be called with pool arguments: {not_called[q][:2]}')
     bf.done()
